@@ -586,6 +586,8 @@ func runClient(e *netEnv, j job, a []val) string {
 		return runClientIPOpt(e, a)
 	case "cli.kestall":
 		return runClientKEStall(e, a)
+	case "cli.kestallquic":
+		return runClientKEStallQUIC(e, a)
 	}
 	return "0 []"
 }
